@@ -106,7 +106,18 @@ func runC14(p *Prog, r *Report) {
 		q.Req(R, "one-afterfunc", len(af) == 1, af.Pos(p), "one AfterFunc", "expected exactly one time.AfterFunc in dial")
 		if len(af) == 1 {
 			call := af[0].In.(*ssa.Call)
-			q.Req(R, "delay-is-old-reconnTime", af[0].Args[0] == "recv.reconnTime" && loadBeforeStores(dl.fn, call.Call.Args[0]), af.Pos(p),
+			delay := call.Call.Args[0]
+			if sc, ok := af[0].Site.(ssa.CallInstruction); ok {
+				// armed inside a private helper: the delay is what the caller passed
+				if par, isPar := delay.(*ssa.Parameter); isPar {
+					for k, q2 := range call.Parent().Params {
+						if q2 == par && k < len(sc.Common().Args) {
+							delay = sc.Common().Args[k]
+						}
+					}
+				}
+			}
+			q.Req(R, "delay-is-old-reconnTime", af[0].Args[0] == "recv.reconnTime" && loadBeforeStores(dl.fn, delay), af.Pos(p),
 				"delay argument is reconnTime read before any growth", "the redial delay is not the pre-growth reconnTime (first retry would not be ReconnectTime)")
 			q.Req(R, "afterfunc-target-redial", strings.Contains(af[0].Args[1], "redial"), af.Pos(p), "callback is redial", "AfterFunc callback is not d.redial")
 			// the whole decision "schedule another attempt", compared with its specification over
@@ -116,7 +127,7 @@ func runC14(p *Prog, r *Report) {
 			{
 				const errD = "recv.d.Dial()#1"
 				dom := map[string][]int64{"arg1": {0, 1}, "recv.asynch": {0, 1}, "recv.closed": {0, 1}, errD: {0, 1, 2}, "ErrClosed": {2}}
-				res := ComparePred(af[0].In.Block(), dom, nil, func(env map[string]int64) bool {
+				res := ComparePred(predBlock(af[0]), dom, nil, func(env map[string]int64) bool {
 					return (env["arg1"] != 0 || env["recv.asynch"] != 0) && env["recv.closed"] == 0 && env[errD] == 1
 				})
 				q.Req(R, "retry-decision-exact", res.OK && res.Undec == "", af.Pos(p), "a retry is scheduled exactly when (redial or asynch) and not closed and the attempt failed with something other than ErrClosed",
@@ -166,7 +177,7 @@ func runC14(p *Prog, r *Report) {
 				q.Req(R, "sync-failure-returned", nf >= 1 && bad == "", dl.Pos(), "a failed attempt returns the transport error (so a synchronous Dial reports it)", "a dial failure is not returned to the caller: "+bad)
 			}
 			// nothing is scheduled once the dialer has been closed
-			q.Req(R, "no-timer-once-closed", len(af) == 1 && af.AllGuarded("!recv.closed") && closedReadInSameSection(p, dl.fn, af[0].In), af.Pos(p), "the redial timer is armed only under !closed, tested in the critical section that arms it", "the redial timer can be armed on a dialer that was closed while the connection attempt was in flight (closed is not re-tested in the critical section that arms the timer)")
+			q.Req(R, "no-timer-once-closed", len(af) == 1 && af.AllGuarded("!recv.closed") && closedReadInSameSection(p, dl.fn, af[0].At()), af.Pos(p), "the redial timer is armed only under !closed, tested in the critical section that arms it", "the redial timer can be armed on a dialer that was closed while the connection attempt was in flight (closed is not re-tested in the critical section that arms the timer)")
 		}
 	}
 
